@@ -1003,48 +1003,84 @@ impl Printer {
         }
     }
 
+    fn header_import(&mut self, i: &str) {
+        self.open_close("import", &mut |p: &mut Printer| p.attr_raw("src", Some(&Val::Static(i.to_string()))), None);
+    }
+
+    fn header_wxs(&mut self, w: &Wxs) {
+        match w {
+            Wxs::Inline { module, js } => {
+                self.out.push_str("<wxs");
+                self.attr_raw("module", Some(&Val::Static(module.clone())));
+                self.out.push('>');
+                self.out.push_str(js);
+                self.out.push_str("</wxs>");
+            }
+            Wxs::Ref { module, src } => {
+                self.out.push_str("<wxs");
+                self.attr_raw("module", Some(&Val::Static(module.clone())));
+                self.attr_raw("src", Some(&Val::Static(src.clone())));
+                self.out.push_str("/>");
+            }
+        }
+    }
+
+    fn header_named(&mut self, name: &str, body: &[Node]) {
+        self.out.push_str("<template");
+        self.attr_raw("name", Some(&Val::Static(name.to_string())));
+        self.out.push('>');
+        self.nodes(body);
+        self.out.push_str("</template>");
+    }
+
+    /// Imports, script modules and named templates are file-global wherever they stand: in loose style they are
+    /// interleaved with the top-level body nodes in any order (imports keep their relative order, which decides
+    /// precedence; wxs modules keep theirs, which decides scope indices; body nodes keep theirs).
     pub fn template(&mut self, t: &Tmpl) {
-        let mut first = true;
-        for i in &t.imports {
-            if !first {
-                self.ws_opt();
-            }
-            first = false;
-            self.open_close("import", &mut |p: &mut Printer| p.attr_raw("src", Some(&Val::Static(i.clone()))), None);
+        enum Item<'a> {
+            Import(&'a str),
+            Wxs(&'a Wxs),
+            Named(&'a str, &'a [Node]),
+            Body(&'a Node),
         }
-        for w in &t.wxs {
-            if !first {
-                self.ws_opt();
+        let mut queues: Vec<Vec<Item>> = vec![
+            t.imports.iter().map(|i| Item::Import(i.as_str())).collect(),
+            t.wxs.iter().map(Item::Wxs).collect(),
+            t.named.iter().map(|(n, b)| Item::Named(n.as_str(), b.as_slice())).collect(),
+            t.body.iter().map(Item::Body).collect(),
+        ];
+        for q in queues.iter_mut() {
+            q.reverse();
+        }
+        let interleave = self.loose && self.rng.chance(1, 2);
+        let mut prev_was_header = false;
+        loop {
+            let avail: Vec<usize> = (0..4).filter(|i| !queues[*i].is_empty()).collect();
+            if avail.is_empty() {
+                break;
             }
-            first = false;
-            match w {
-                Wxs::Inline { module, js } => {
-                    self.out.push_str("<wxs");
-                    self.attr_raw("module", Some(&Val::Static(module.clone())));
-                    self.out.push('>');
-                    self.out.push_str(js);
-                    self.out.push_str("</wxs>");
+            let qi = if interleave { avail[self.rng.below(avail.len() as u64) as usize] } else { avail[0] };
+            let item = queues[qi].pop().unwrap();
+            match item {
+                Item::Body(n) => {
+                    self.node(n, &Directives::none());
+                    prev_was_header = false;
                 }
-                Wxs::Ref { module, src } => {
-                    self.out.push_str("<wxs");
-                    self.attr_raw("module", Some(&Val::Static(module.clone())));
-                    self.attr_raw("src", Some(&Val::Static(src.clone())));
-                    self.out.push_str("/>");
+                other => {
+                    // optional whitespace only between two header items (it would join a neighbouring text node otherwise)
+                    if prev_was_header {
+                        self.ws_opt();
+                    }
+                    match other {
+                        Item::Import(i) => self.header_import(i),
+                        Item::Wxs(w) => self.header_wxs(w),
+                        Item::Named(n, b) => self.header_named(n, b),
+                        Item::Body(_) => unreachable!(),
+                    }
+                    prev_was_header = true;
                 }
             }
         }
-        for (name, body) in &t.named {
-            if !first {
-                self.ws_opt();
-            }
-            first = false;
-            self.out.push_str("<template");
-            self.attr_raw("name", Some(&Val::Static(name.clone())));
-            self.out.push('>');
-            self.nodes(body);
-            self.out.push_str("</template>");
-        }
-        self.nodes(&t.body);
     }
 }
 
